@@ -274,7 +274,7 @@ def judge_node(tr):
 
 def revoke_corr(ctx, model_ok):
     quick = ctx.tier == "quick"
-    n_scen, max_steps = (60, 140) if quick else (1500, 220)
+    n_scen, max_steps = (60, 140) if quick else (1000, 200)
     seed = ctx.rng.fork("revoke").next() & ((1 << 62) - 1)
     batches = 8 if quick else 16
     per = (n_scen + batches - 1) // batches
